@@ -120,7 +120,7 @@ func writeEvidence(cs *CheckSpec, cfg *RunConfig, e *Engine, cases []*Case, n ev
 			"functions_encoded":  map[string]any{"elvish_functions": nElv, "std_functions": nStd, "top": fns},
 			"intercepts":         intercepts,
 			"init_failures":      len(e.initFailures),
-			"solver":             map[string]any{"name": cfg.Solver, "queries": e.stats.Queries + e.incHits + e.incMisses, "oneshot_queries": e.stats.Queries, "sat": e.stats.Sat, "unsat": e.stats.UnsatN, "unknown": e.stats.UnknownN, "cache_hits": e.stats.CacheHits, "seconds": e.stats.Seconds, "errors": e.stats.Errors, "unknown_branches": e.unknownBranches, "incremental_session_decided": e.incHits, "incremental_session_unknown": e.incMisses, "cvc5_fallback_queries": e.stats.Fallbacks, "cvc5_fallback_decided": e.stats.FallbackDecided, "query_timeout_ms": cfg.QueryTimeoutMs},
+			"solver":             map[string]any{"name": cfg.Solver, "queries": e.stats.Queries + e.incHits + e.incMisses, "oneshot_queries": e.stats.Queries, "sat": e.stats.Sat, "unsat": e.stats.UnsatN, "unknown": e.stats.UnknownN, "cache_hits": e.stats.CacheHits, "seconds": e.stats.Seconds, "errors": e.stats.Errors, "unknown_branches": e.unknownBranches, "unknown_feasibility_kept_both_ways": e.unknownFeas, "incremental_session_decided": e.incHits, "incremental_session_unknown": e.incMisses, "cvc5_fallback_queries": e.stats.Fallbacks, "cvc5_fallback_decided": e.stats.FallbackDecided, "query_timeout_ms": cfg.QueryTimeoutMs},
 			"timing_s":           map[string]float64{"load_and_ssa": n.loadS, "explore": n.exploreS},
 			"native_replays":     map[string]int{"witnesses_reproduced": n.validated, "violations_reproduced": n.confirmed, "spurious": n.spurious},
 			"known_findings_hit": knownLines,
